@@ -194,18 +194,22 @@ def parse_numbers(numbers, is_date=False):
         for w in colonList:
             if w == "":
                 verif.util.error("Could not parse '%s'. Empty value." % (numbers))
+        try:
+            colonValues = [float(w) for w in colonList]
+        except ValueError:
+            error("Could not translate '" + numbers + "' into numbers")
         if len(colonList) == 1:
-            values.append(float(colonList[0]))
+            values.append(colonValues[0])
         elif len(colonList) <= 3:
-            start = float(colonList[0])
+            start = colonValues[0]
             step = 1
             if len(colonList) == 3:
-                step = float(colonList[1])
+                step = colonValues[1]
             if step == 0:
                 verif.util.error("Could not parse '%s': Step cannot be 0." % (numbers))
             stepSign = step / abs(step)
             # arange does not include the end point:
-            end = float(colonList[-1]) + stepSign * 0.0001
+            end = colonValues[-1] + stepSign * 0.0001
             if is_date:
                 date = min(start, end)
                 curr = list()
